@@ -6,6 +6,8 @@ import (
 	"sort"
 	"strings"
 
+	"k8s.io/apimachinery/pkg/types"
+
 	kaiv2 "github.com/NVIDIA/KAI-scheduler/pkg/apis/scheduling/v2alpha2"
 
 	u "kaiverif/internal/util"
@@ -160,19 +162,41 @@ func (in *intern) ostr(s *string) string {
 
 // ---- events ----------------------------------------------------------------
 
-// Foreign is an update by another actor of the fields it owns; nil = leave alone.
+// KeyUpd sets (Val != nil) or deletes (Val == nil) one label / annotation key.
+type KeyUpd struct {
+	Key string
+	Val *string
+}
+
+// Foreign is an update by another actor of the fields it owns; nil = leave alone. Labels / Annots are any
+// other keys of the stored PodGroup (the scheduler's timestamp annotations, an administrator's keys), applied
+// in order before NodePool / QLabel.
 type Foreign struct {
 	Queue    *string
 	Mark     **bool
 	Backoff  **int32
 	NodePool **string // *nil = delete the label
 	QLabel   **string
+	Labels   []KeyUpd
+	Annots   []KeyUpd
+}
+
+// quiet: the update touches label / annotation keys only
+func (f *Foreign) quiet() bool {
+	return f.Queue == nil && f.Mark == nil && f.Backoff == nil && f.NodePool == nil && f.QLabel == nil
+}
+
+// OwnerChange removes label / annotation keys from the owner object Idx of the world.
+type OwnerChange struct {
+	Idx                int
+	DelLabels, DelAnns []string
 }
 
 type Event struct {
-	Rec     int      // pod index, or -1
-	Target  int      // foreign: index of the pod whose PodGroup is updated
-	Foreign *Foreign // foreign update
+	Rec     int          // pod index, or -1
+	Target  int          // foreign: index of the pod whose PodGroup is updated
+	Foreign *Foreign     // foreign update
+	Own     *OwnerChange // owner object loses keys
 }
 
 func (in *intern) foreign(f *Foreign) string {
@@ -199,7 +223,33 @@ func (in *intern) foreign(f *Foreign) string {
 		}
 		return "(Some " + in.ostr(*l) + ")"
 	}
-	return fmt.Sprintf("{| f_queue := %s; f_mark := %s; f_backoff := %s; f_nodepool := %s; f_qlabel := %s |}", q, mark, bo, lab(f.NodePool), lab(f.QLabel))
+	keys := func(us []KeyUpd) string {
+		return u.ListOf(us, func(x KeyUpd) string { return u.Pair(in.S(x.Key), in.ostr(x.Val)) })
+	}
+	return fmt.Sprintf("{| f_queue := %s; f_mark := %s; f_backoff := %s; f_nodepool := %s; f_qlabel := %s; f_labels := %s; f_annots := %s |}",
+		q, mark, bo, lab(f.NodePool), lab(f.QLabel), keys(f.Labels), keys(f.Annots))
+}
+
+func (f *Foreign) describe() string {
+	xs := []string{}
+	if !f.quiet() {
+		xs = append(xs, "fields")
+	}
+	for _, x := range f.Labels {
+		if x.Val == nil {
+			xs = append(xs, "-label:"+x.Key)
+		} else {
+			xs = append(xs, "label:"+x.Key)
+		}
+	}
+	for _, x := range f.Annots {
+		if x.Val == nil {
+			xs = append(xs, "-annot:"+x.Key)
+		} else {
+			xs = append(xs, "annot:"+x.Key)
+		}
+	}
+	return strings.Join(xs, ",")
 }
 
 func (inst *Instance) applyForeign(name string, f *Foreign) {
@@ -229,9 +279,56 @@ func (inst *Instance) applyForeign(name string, f *Foreign) {
 		}
 		pg.Labels[key] = **l
 	}
+	for _, x := range f.Labels {
+		v := x.Val
+		setLabel(x.Key, &v)
+	}
+	for _, x := range f.Annots {
+		if x.Val == nil {
+			delete(pg.Annotations, x.Key)
+			continue
+		}
+		if pg.Annotations == nil {
+			pg.Annotations = map[string]string{}
+		}
+		pg.Annotations[x.Key] = *x.Val
+	}
 	setLabel(inst.W.Cfg.NodePoolKey, f.NodePool)
 	setLabel(inst.W.Cfg.QueueKey, f.QLabel)
 	must(inst.Base.Update(context.Background(), pg))
+}
+
+// applyOwner removes the keys from the stored owner object and returns the object as it is afterwards.
+func (inst *Instance) applyOwner(cur Obj, c *OwnerChange) Obj {
+	o := cur
+	o.Labels = map[string]string{}
+	o.Annots = map[string]string{}
+	for k, v := range cur.Labels {
+		o.Labels[k] = v
+	}
+	for k, v := range cur.Annots {
+		o.Annots[k] = v
+	}
+	for _, k := range c.DelLabels {
+		delete(o.Labels, k)
+	}
+	for _, k := range c.DelAnns {
+		delete(o.Annots, k)
+	}
+	stored := o.unstructured()
+	must(inst.Base.Get(context.Background(), types.NamespacedName{Namespace: ns, Name: o.Name}, stored))
+	if len(o.Labels) == 0 {
+		stored.SetLabels(nil)
+	} else {
+		stored.SetLabels(o.Labels)
+	}
+	if len(o.Annots) == 0 {
+		stored.SetAnnotations(nil)
+	} else {
+		stored.SetAnnotations(o.Annots)
+	}
+	must(inst.Base.Update(context.Background(), stored))
+	return o
 }
 
 // idemFlags classifies the repeated reconciles of a run that issued mutating calls (diagnostics for the
@@ -270,6 +367,7 @@ type runStats struct {
 	writesFirst        []int // mutating calls of the first reconcile of each pod
 	writesRepeat       []int // mutating calls of repeated reconciles (no foreign update since)
 	errors, reconciles int
+	firstBad           string // the first repeated reconcile that wrote: which pod, after which event
 }
 
 // execRun plays the events on a fresh instance of the real code and returns the Coq term of the run.
@@ -278,7 +376,18 @@ func execRun(in *intern, w *World, evs []Event) (string, runStats) {
 	st := runStats{}
 	seen := map[int]bool{}
 	terms := []string{}
+	objs := append([]Obj{}, w.Objs...)
+	wk := worldKeys(w)
+	lastEv := "start"
 	for _, e := range evs {
+		if e.Own != nil {
+			objs[e.Own.Idx] = inst.applyOwner(objs[e.Own.Idx], e.Own)
+			seen = map[int]bool{}
+			lastEv = fmt.Sprintf("owner(%s)-lost(labels=%v,annots=%v)", objs[e.Own.Idx].Kind, e.Own.DelLabels, e.Own.DelAnns)
+			terms = append(terms, fmt.Sprintf("(OwnE %s %s, {| eo_writes := 0%%Z; eo_err := false; eo_ann := None; eo_before := None; eo_after := None |})",
+				u.Nat(e.Own.Idx), in.obj(objs[e.Own.Idx])))
+			continue
+		}
 		if e.Rec >= 0 {
 			before := map[string]kaiv2.PodGroup{}
 			for _, g := range inst.PodGroups() {
@@ -301,6 +410,9 @@ func execRun(in *intern, w *World, evs []Event) (string, runStats) {
 			}
 			if seen[e.Rec] {
 				st.writesRepeat = append(st.writesRepeat, calls.Total())
+				if calls.Total() > 0 && st.firstBad == "" {
+					st.firstBad = fmt.Sprintf("pod%d-after-%s", e.Rec, lastEv)
+				}
 				if calls.Update > 0 {
 					if bpg != nil && apg != nil && in.pg(bpg) == in.pg(apg) {
 						st.idem.noopUpdate = true
@@ -328,7 +440,10 @@ func execRun(in *intern, w *World, evs []Event) (string, runStats) {
 			bpg := inst.PodGroup(name)
 			inst.applyForeign(name, e.Foreign)
 			apg := inst.PodGroup(name)
-			seen = map[int]bool{}
+			if !quietForeign(wk, e.Foreign) { // as the monitor: keys of other actors do not excuse a write
+				seen = map[int]bool{}
+			}
+			lastEv = "foreign(" + e.Foreign.describe() + ")"
 			terms = append(terms, fmt.Sprintf("(ForE %s %s, {| eo_writes := 0%%Z; eo_err := false; eo_ann := None; eo_before := %s; eo_after := %s |})",
 				in.S(name), in.foreign(e.Foreign), in.opg(bpg), in.opg(apg)))
 		}
@@ -556,6 +671,103 @@ func genWorld(r *u.Rng, sh shape, n int, defect string) *World {
 
 func ptr[T any](v T) *T { return &v }
 
+// keys of the scheduler (pkg/common/constants: LastStartTimeStamp, StalePodgroupTimeStamp, written by
+// pkg/scheduler/cache/status_updater) and of an administrator; no generated owner or pod carries them
+var (
+	foreignAnnotKeys = []string{"kai.scheduler/last-start-timestamp", "kai.scheduler/stale-podgroup-timestamp", "admin.example.com/note"}
+	foreignLabelKeys = []string{"admin.example.com/cost-center", "team-owner"}
+	foreignValues    = map[string][]string{
+		"kai.scheduler/last-start-timestamp":     {"2025-06-01T10:00:00Z", "2025-06-01T11:30:00Z"},
+		"kai.scheduler/stale-podgroup-timestamp": {"2025-06-01T10:05:00Z", "2025-06-02T00:00:00Z"},
+		"admin.example.com/note":                 {"do not delete", ""},
+		"admin.example.com/cost-center":          {"cc-42", "cc-7"},
+		"team-owner":                             {"ml-infra", "platform"},
+	}
+)
+
+// worldKeys mirrors Run/C18.v world_keys: every label / annotation key some object of the world carries plus
+// the keys the grouper writes by itself.
+func worldKeys(w *World) map[string]bool {
+	m := map[string]bool{w.Cfg.QueueKey: true, w.Cfg.NodePoolKey: true, "kai.scheduler/top-owner-metadata": true,
+		"user": true, "pod-group-name": true, "kai.scheduler/subgroup-name": true}
+	for _, o := range w.Objs {
+		for k := range o.Labels {
+			m[k] = true
+		}
+		for k := range o.Annots {
+			m[k] = true
+		}
+	}
+	for _, p := range w.Pods {
+		for k := range p.Labels {
+			m[k] = true
+		}
+		for k := range p.Annots {
+			m[k] = true
+		}
+	}
+	return m
+}
+
+func quietForeign(wk map[string]bool, f *Foreign) bool {
+	if !f.quiet() {
+		return false
+	}
+	for _, x := range f.Labels {
+		if wk[x.Key] {
+			return false
+		}
+	}
+	for _, x := range f.Annots {
+		if wk[x.Key] {
+			return false
+		}
+	}
+	return true
+}
+
+// genKeyUpds: add / change (2 in 3) or remove (1 in 3) one to three of the keys
+func genKeyUpds(r *u.Rng, keys []string, max int) []KeyUpd {
+	out := []KeyUpd{}
+	for i, n := 0, r.Range(1, max); i < n; i++ {
+		k := u.Pick(r, keys)
+		if r.Chance(1, 3) {
+			out = append(out, KeyUpd{Key: k})
+		} else {
+			out = append(out, KeyUpd{Key: k, Val: ptr(u.Pick(r, foreignValues[k]))})
+		}
+	}
+	return out
+}
+
+// genKeyForeign: another actor labels / annotates the PodGroup and touches nothing else. first = the keys are
+// set (the scheduler stamping a PodGroup that just started), otherwise set, changed or removed.
+func genKeyForeign(r *u.Rng, first bool) *Foreign {
+	f := &Foreign{}
+	switch r.Intn(4) {
+	case 0:
+		f.Labels = genKeyUpds(r, foreignLabelKeys, 2)
+	case 1, 2:
+		f.Annots = genKeyUpds(r, foreignAnnotKeys, 3)
+	default:
+		f.Labels = genKeyUpds(r, foreignLabelKeys, 2)
+		f.Annots = genKeyUpds(r, foreignAnnotKeys, 3)
+	}
+	if first {
+		for i := range f.Labels {
+			if f.Labels[i].Val == nil {
+				f.Labels[i].Val = ptr(foreignValues[f.Labels[i].Key][0])
+			}
+		}
+		for i := range f.Annots {
+			if f.Annots[i].Val == nil {
+				f.Annots[i].Val = ptr(foreignValues[f.Annots[i].Key][0])
+			}
+		}
+	}
+	return f
+}
+
 func genForeign(r *u.Rng, cfg Config) *Foreign {
 	f := &Foreign{}
 	for {
@@ -596,10 +808,70 @@ func genForeign(r *u.Rng, cfg Config) *Foreign {
 				f.QLabel = ptr(ptr(u.Pick(r, []string{"ql-1", "ql-2"})))
 			}
 		}
-		if f.Queue != nil || f.Mark != nil || f.Backoff != nil || f.NodePool != nil || f.QLabel != nil {
+		// the scheduler sets mark-unschedulable and its timestamps in one update
+		if r.Chance(1, 3) {
+			f.Annots = genKeyUpds(r, foreignAnnotKeys, 2)
+		}
+		if r.Chance(1, 6) {
+			f.Labels = genKeyUpds(r, foreignLabelKeys, 1)
+		}
+		// another actor overwrites a key the grouper does compute: the next reconcile puts it back
+		if r.Chance(1, 10) {
+			f.Labels = append(f.Labels, KeyUpd{Key: "app", Val: ptr("hijacked")})
+		}
+		if r.Chance(1, 10) {
+			f.Annots = append(f.Annots, KeyUpd{Key: "note", Val: ptr("hijacked")})
+		}
+		if !f.quiet() || len(f.Labels)+len(f.Annots) > 0 {
 			return f
 		}
 	}
+}
+
+// genOwnerChange removes one or two label / annotation keys from an owner object (mostly the top owner, whose
+// metadata the PodGroup copies); nil when no owner carries a key.
+func genOwnerChange(r *u.Rng, w *World) *OwnerChange {
+	cands := []int{}
+	for i, o := range w.Objs {
+		if len(o.Labels)+len(o.Annots) > 0 {
+			cands = append(cands, i)
+		}
+	}
+	if len(cands) == 0 {
+		return nil
+	}
+	idx := cands[len(cands)-1]
+	if r.Chance(1, 3) {
+		idx = u.Pick(r, cands)
+	}
+	o := w.Objs[idx]
+	type ka struct {
+		key   string
+		annot bool
+	}
+	keys := []ka{}
+	for k := range o.Labels {
+		keys = append(keys, ka{k, false})
+	}
+	for k := range o.Annots {
+		keys = append(keys, ka{k, true})
+	}
+	sort.Slice(keys, func(a, b int) bool {
+		if keys[a].annot != keys[b].annot {
+			return !keys[a].annot
+		}
+		return keys[a].key < keys[b].key
+	})
+	u.Shuffle(r, keys)
+	c := &OwnerChange{Idx: idx}
+	for i, n := 0, r.Range(1, 2); i < n && i < len(keys); i++ {
+		if keys[i].annot {
+			c.DelAnns = append(c.DelAnns, keys[i].key)
+		} else {
+			c.DelLabels = append(c.DelLabels, keys[i].key)
+		}
+	}
+	return c
 }
 
 func permutations(n int) [][]int {
@@ -666,7 +938,15 @@ func groupRuns(r *u.Rng, w *World, thorough bool) [][]Event {
 		evs = append(evs, recs(perms[order]...)...)
 		for round, rounds := 0, r.Range(1, 2); round < rounds; round++ {
 			for j, m := 0, r.Range(1, 2); j < m; j++ {
-				evs = append(evs, Event{Rec: -1, Target: r.Intn(n), Foreign: genForeign(r, w.Cfg)})
+				if r.Chance(1, 3) {
+					evs = append(evs, Event{Rec: -1, Target: r.Intn(n), Foreign: genKeyForeign(r, round == 0 && j == 0)})
+				} else {
+					evs = append(evs, Event{Rec: -1, Target: r.Intn(n), Foreign: genForeign(r, w.Cfg)})
+				}
+			}
+			// the workload's own metadata changes after another actor touched the PodGroup
+			if oc := genOwnerChange(r, w); oc != nil && r.Chance(1, 2) {
+				evs = append(evs, Event{Rec: -1, Own: oc})
 			}
 			again := perms[r.Intn(len(perms))]
 			evs = append(evs, recs(again...)...)
@@ -676,7 +956,9 @@ func groupRuns(r *u.Rng, w *World, thorough bool) [][]Event {
 	return runs
 }
 
-// idemRuns: each pod twice in a row; everybody then everybody again; foreign update then twice.
+// idemRuns: each pod twice in a row; everybody then everybody again; foreign update then twice; the PodGroup
+// labelled / annotated by another actor, then everybody several times, the keys changed / removed, everybody
+// again; an owner loses keys after the PodGroup was created, then everybody twice.
 func idemRuns(r *u.Rng, w *World) [][]Event {
 	n := len(w.Pods)
 	runs := [][]Event{}
@@ -694,6 +976,28 @@ func idemRuns(r *u.Rng, w *World) [][]Event {
 	evs = append(evs, recs(all...)...)
 	evs = append(evs, recs(all...)...)
 	runs = append(runs, evs)
+	// keys of other actors: the reconciles after them write nothing at all
+	evs = recs(all...)
+	evs = append(evs, Event{Rec: -1, Target: r.Intn(n), Foreign: genKeyForeign(r, true)})
+	evs = append(evs, recs(all...)...)
+	evs = append(evs, recs(all...)...)
+	for i, m := 0, r.Range(1, 2); i < m; i++ {
+		evs = append(evs, Event{Rec: -1, Target: r.Intn(n), Foreign: genKeyForeign(r, false)})
+		evs = append(evs, recs(r.Intn(n))...)
+	}
+	evs = append(evs, recs(all...)...)
+	runs = append(runs, evs)
+	// a key is removed from an owner after the PodGroup was created (and another actor's key is there too)
+	if oc := genOwnerChange(r, w); oc != nil {
+		evs = recs(all...)
+		if r.Bool() {
+			evs = append(evs, Event{Rec: -1, Target: r.Intn(n), Foreign: genKeyForeign(r, true)})
+		}
+		evs = append(evs, Event{Rec: -1, Own: oc})
+		evs = append(evs, recs(all...)...)
+		evs = append(evs, recs(all...)...)
+		runs = append(runs, evs)
+	}
 	return runs
 }
 
@@ -706,6 +1010,7 @@ func sortedCopy(xs []int) []int { c := append([]int{}, xs...); sort.Ints(c); ret
 type emitter struct {
 	out      *u.Out
 	thorough bool
+	extra    [][]Event // fixed runs added to the CkIdem case of the next world
 }
 
 func (em *emitter) emitWorld(r *u.Rng, origin string, sh shape, w *World, defect string) {
@@ -722,11 +1027,23 @@ func (em *emitter) emitWorld(r *u.Rng, origin string, sh shape, w *World, defect
 		if check == "CkGroup" {
 			runs = groupRuns(r, w, em.thorough)
 		} else {
-			runs = idemRuns(r, w)
+			runs = append(idemRuns(r, w), em.extra...)
 		}
 		rterms := []string{}
 		agg := runStats{}
 		for _, evs := range runs {
+			for _, e := range evs {
+				switch {
+				case e.Own != nil:
+					em.out.Count("event:owner-keys-removed")
+				case e.Foreign != nil && quietForeign(worldKeys(w), e.Foreign):
+					em.out.Count("event:foreign-keys-only")
+				case e.Foreign != nil && len(e.Foreign.Labels)+len(e.Foreign.Annots) > 0:
+					em.out.Count("event:foreign-fields+keys")
+				case e.Foreign != nil:
+					em.out.Count("event:foreign-fields")
+				}
+			}
 			t, st := execRun(in, w, evs)
 			rterms = append(rterms, t)
 			agg.idem.merge(st.idem)
@@ -734,12 +1051,18 @@ func (em *emitter) emitWorld(r *u.Rng, origin string, sh shape, w *World, defect
 			agg.writesRepeat = append(agg.writesRepeat, st.writesRepeat...)
 			agg.errors += st.errors
 			agg.reconciles += st.reconciles
+			if agg.firstBad == "" {
+				agg.firstBad = st.firstBad
+			}
 		}
 		term := fmt.Sprintf("{| k_cfg := %s; k_cluster := %s; k_pods := %s; k_chain := %s; k_check := %s; k_runs := %s |}",
 			in.config(w.Cfg, w.Forbidden), u.ListOf(w.Objs, in.obj), u.ListOf(w.Pods, in.pod), chainTerm(in, sh), check, u.List(rterms))
 		label := fmt.Sprintf("%s check=%s", desc, check)
 		if check == "CkIdem" {
 			label += fmt.Sprintf(" repeat-writes=%v idem=%s", sortedCopy(agg.writesRepeat), agg.idem)
+			if agg.firstBad != "" {
+				label += " first=" + agg.firstBad
+			}
 			em.out.Count("idem:" + agg.idem.String())
 			for _, x := range agg.writesRepeat {
 				em.out.Count(fmt.Sprintf("repeat-reconcile-writes:%d", x))
@@ -819,6 +1142,42 @@ func Run(dir string, seed uint64, n int, tier string) error {
 			Pods: []Pod{{Name: "web-0", UID: "u-p0", Owners: []Ref{stsRef}}, {Name: "web-1", UID: "u-p1", Labels: map[string]string{"kai.scheduler/subgroup-name": "gone"}, Owners: []Ref{stsRef}}}}
 		em.emitWorld(cr, "corpus-regression", shapes[3], w6, "")
 	}
+	{
+		// another actor's keys on the stored PodGroup (theorems C18_idempotent_with_foreign_keys,
+		// C18_swapped_comparison_writes_forever, C18_owner_key_removed): StatefulSet team-a/trainer with two pods;
+		// the scheduler sets a backoff and the node-pool label, later its two timestamp annotations together with
+		// mark-unschedulable, an administrator labels the PodGroup; every reconcile after a reconcile is silent,
+		// and so is the first one after the pure label / annotation updates
+		sts := Obj{Group: "apps", Version: "v1", Kind: "StatefulSet", Name: "trainer", UID: "uid-trainer",
+			Labels: map[string]string{queueKey: "team-a", "app": "trainer"}, Annots: map[string]string{"note": "x"}}
+		ref := Ref{"apps", "v1", "StatefulSet", "trainer", "uid-trainer"}
+		w := &World{Cfg: Config{QueueKey: queueKey, NodePoolKey: nodePoolKey, PrioClasses: []string{"train"}},
+			Objs: []Obj{sts},
+			Pods: []Pod{{Name: "trainer-0", UID: "u-t0", Owners: []Ref{ref}}, {Name: "trainer-1", UID: "u-t1", Owners: []Ref{ref}}}}
+		stamp := &Foreign{Mark: ptr(ptr(true)), Annots: []KeyUpd{
+			{Key: "kai.scheduler/last-start-timestamp", Val: ptr("2025-06-01T10:00:00Z")},
+			{Key: "kai.scheduler/stale-podgroup-timestamp", Val: ptr("2025-06-01T10:05:00Z")}}}
+		restamp := &Foreign{Annots: []KeyUpd{
+			{Key: "kai.scheduler/stale-podgroup-timestamp"},
+			{Key: "kai.scheduler/last-start-timestamp", Val: ptr("2025-06-01T11:00:00Z")}}}
+		admin := &Foreign{Labels: []KeyUpd{{Key: "team-owner", Val: ptr("ml-infra")}}, Annots: []KeyUpd{{Key: "admin.example.com/note", Val: ptr("do not delete")}}}
+		evs := recs(0, 1, 0, 1)
+		evs = append(evs, Event{Rec: -1, Target: 0, Foreign: &Foreign{Backoff: ptr(ptr(int32(1))), NodePool: ptr(ptr("pool-x"))}})
+		evs = append(evs, recs(0, 1)...)
+		evs = append(evs, Event{Rec: -1, Target: 0, Foreign: stamp})
+		evs = append(evs, recs(0, 1, 0, 1, 0, 1)...)
+		evs = append(evs, Event{Rec: -1, Target: 1, Foreign: restamp})
+		evs = append(evs, recs(1, 0)...)
+		evs = append(evs, Event{Rec: -1, Target: 0, Foreign: admin})
+		evs = append(evs, recs(0, 1, 1, 0)...)
+		// the owner loses a label and an annotation the PodGroup copied at creation
+		evs2 := recs(0, 1)
+		evs2 = append(evs2, Event{Rec: -1, Own: &OwnerChange{Idx: 0, DelLabels: []string{"app"}, DelAnns: []string{"note"}}})
+		evs2 = append(evs2, recs(0, 1, 0, 1)...)
+		em.extra = [][]Event{evs, evs2}
+		em.emitWorld(cr, "corpus-foreign-keys", shapes[3], w, "")
+		em.extra = nil
+	}
 	defects := []string{"uid-mismatch", "missing-owner", "two-owners-above", "forbidden-top", "forbidden-direct", "user-annotation", "two-owner-refs"}
 	for i := 0; out.Len() < n; i++ {
 		r := root.Fork(uint64(i))
@@ -846,6 +1205,6 @@ func Run(dir string, seed uint64, n int, tier string) error {
 		}
 		em.emitWorld(r, origin, sh, w, defect)
 	}
-	out.Stats["rule"] = "worlds drawn from one splitmix64 stream: owner-chain shape (bare pod, Deployment>ReplicaSet, Job, StatefulSet, ReplicaSet, CRD, 6 skip-top-owner chains, pod-owned pod) x 1-3 sibling pods x labels/annotations/priority classes/defaults config map; every fifth world malformed (stale uid, missing owner, two owners, forbidden kinds, user-provided annotation); after a fixed corpus (every shape with 2 pods + the witnesses of the three repaired findings: owner without labels, Workflow-owned pod, stale sub-group label, forbidden direct owner, owners carrying a pod-group-name annotation); 1 world in 25 gives its pods a stale sub-group label. Each world gives a CkGroup case (all reconcile orders, a run with repeats, runs with foreign updates) and a CkIdem case (repeated reconciles). non-trivial = at least one reconcile succeeded; distinct by (shape, pods, defect, check, config-map state, node-pool key configured)"
+	out.Stats["rule"] = "worlds drawn from one splitmix64 stream: owner-chain shape (bare pod, Deployment>ReplicaSet, Job, StatefulSet, ReplicaSet, CRD, 6 skip-top-owner chains, pod-owned pod) x 1-3 sibling pods x labels/annotations/priority classes/defaults config map; every fifth world malformed (stale uid, missing owner, two owners, forbidden kinds, user-provided annotation); after a fixed corpus (every shape with 2 pods + the witnesses of the three repaired findings: owner without labels, Workflow-owned pod, stale sub-group label, forbidden direct owner, owners carrying a pod-group-name annotation + a StatefulSet whose PodGroup the scheduler stamps with kai.scheduler/last-start-timestamp / kai.scheduler/stale-podgroup-timestamp and an administrator labels, and whose owner then loses a label and an annotation); 1 world in 25 gives its pods a stale sub-group label. Events: reconcile pod i; foreign update of a PodGroup = queue / markUnschedulable / schedulingBackoff / node-pool label / queue label and/or labels and annotations of other actors set, changed, removed (the scheduler's two timestamp annotations, admin keys admin.example.com/note, admin.example.com/cost-center, team-owner; 1 in 10 overwrites a key the grouper computes); an owner object loses one or two label / annotation keys after the PodGroup was created. Each world gives a CkGroup case (all reconcile orders, a run with repeats, runs with foreign updates and owner changes between reconciles) and a CkIdem case (repeated reconciles; after a foreign update; after keys of other actors were put on / changed on / removed from the PodGroup, where also the FIRST reconcile must be silent; after an owner lost keys). non-trivial = at least one reconcile succeeded; distinct by (shape, pods, defect, check, config-map state, node-pool key configured)"
 	return out.Flush()
 }
